@@ -25,6 +25,10 @@ from . import common as C
 NATIVE = {1: "uint8", 2: "int16", 4: "int32", 8: "double"}
 C_NATIVE = {1: "unsigned char", 2: "short", 4: "int", 8: "double"}
 
+# the real code gets this long per call (a layout takes milliseconds); longer = it does not terminate = `err internal`
+LIMIT_S = 10.0
+MAX_HANGS = 2       # per process: after that many expiries the remaining cases of the process are skipped
+
 # A field spec is ("n", width, length|None) or ("s", [specs], length|None) for a nested struct
 Spec = Tuple
 
@@ -92,7 +96,8 @@ class Built:
         P, p = self.P, self.p
         n = len(self.sdf.fields)
         try:
-            p.validate_msg_def(self.sdf)
+            with C.time_limit(LIMIT_S):
+                p.validate_msg_def(self.sdf)
         except BaseException as e:  # noqa: BLE001  (every exception is an observation)
             if isinstance(e, (KeyboardInterrupt, SystemExit)):
                 raise
@@ -136,6 +141,8 @@ class Built:
 
 def run_case(cid: str, auto_pad: bool, spec_fields: Sequence[Spec], want_ct: bool = True):
     """Returns (protocol lines, Built or None)."""
+    if C.hangs_seen() >= MAX_HANGS:
+        return None, None
     P, p = _parser(auto_pad)
     b = Built(P, p, spec_fields, name=f"S{cid}")
     if b.child_err is not None:
@@ -254,10 +261,44 @@ def gcc_probe(builts: List[Built]) -> List[Tuple[str, List[int], List[int]]]:
 # definition (itself checked in its own case).
 # ------------------------------------------------------------------------------------------------
 
-def _yaml_of(defs) -> str:
-    sd, md = [], []
-    mid = 1000
+RANK = {"a": 0, "s": 1, "m": 2}       # a file's sections are handled in this order: aliases, struct_defs, message_defs
+
+
+def _deps(body, kind) -> List[str]:
+    if kind == "a":
+        return [body] if isinstance(body, str) else []
+    if isinstance(body, str):
+        return [body]
+    return [what for k, what, _l in body if k == "r"]
+
+
+def _levels(defs) -> Dict[str, int]:
+    """file index per definition: a definition goes into the first file in which everything it names is already known
+    when its section is handled (same file: an earlier section, or the same section further up; otherwise an imported
+    file).  An alias of a struct therefore lives in a file that imports the struct's file."""
+    lvl: Dict[str, int] = {}
+    kinds = {n: k for n, _b, k in defs}
     for name, body, kind in defs:
+        lv = 0
+        for d in _deps(body, kind):
+            if d in lvl:
+                lv = max(lv, lvl[d] + (1 if RANK[kinds[d]] > RANK[kind] else 0))
+        lvl[name] = lv
+    return lvl
+
+
+def _parse_order(defs):
+    lvl = _levels(defs)
+    return sorted(defs, key=lambda x: (lvl[x[0]], RANK[x[2]]))     # stable: list order inside a section
+
+
+def _file_yaml(defs, imports: List[str], first_id: int) -> str:
+    al, sd, md = [], [], []
+    mid = first_id
+    for name, body, kind in defs:
+        if kind == "a":
+            al.append(f"  {name}: {NATIVE[body] if isinstance(body, int) else body}")
+            continue
         tgt = sd if kind == "s" else md
         tgt.append(f"  {name}:")
         if kind == "m":
@@ -271,6 +312,10 @@ def _yaml_of(defs) -> str:
                 t = NATIVE[what] if k == "n" else what
                 tgt.append(f"      u{i}: {t}" + (f"[{length}]" if length is not None else ""))
     out = []
+    if imports:
+        out += ["imports:"] + [f"  - {i}" for i in imports]
+    if al:
+        out += ["aliases:"] + al
     if sd:
         out += ["struct_defs:"] + sd
     if md:
@@ -278,16 +323,55 @@ def _yaml_of(defs) -> str:
     return "\n".join(out) + "\n"
 
 
-def _natural(defs) -> Dict[str, Tuple[int, list]]:
-    """name -> (natural alignment, user member list after resolving reuse)"""
-    nat: Dict[str, Tuple[int, list]] = {}
-    for name, body, _ in defs:
-        if isinstance(body, str):
+def _write_group(d: str, defs, stem: str, tail: str = "") -> str:
+    """writes the group as a chain of files <stem>0.yaml <- <stem>1.yaml <- ... (each imports the one before);
+    returns the path of the root file.  `tail`: message definitions appended to the root file."""
+    lvl = _levels(defs)
+    top = max(lvl.values(), default=0)
+    prev = None
+    mid = 1000
+    path = os.path.join(d, f"{stem}0.yaml")
+    for k in range(top + 1):
+        mine = [x for x in defs if lvl[x[0]] == k]
+        if not mine and not (k == top and (tail or prev is None)):
+            continue
+        text = _file_yaml(mine, [prev] if prev else [], mid)
+        mid += sum(1 for x in mine if x[2] == "m")
+        if k == top and tail:
+            text += tail if any(x[2] == "m" for x in mine) else "message_defs:\n" + tail
+        path = os.path.join(d, f"{stem}{k}.yaml")
+        open(path, "w").write(text)
+        prev = f"{stem}{k}.yaml"
+    return path
+
+
+def _yaml_of(defs) -> str:
+    """the group as one file (only for groups whose definitions all fit into one file)"""
+    return _file_yaml(defs, [], 1000)
+
+
+def _natural(defs) -> Dict[str, Tuple[int, Any]]:
+    """name -> (natural alignment, user member list after resolving reuse | None for an alias)"""
+    nat: Dict[str, Tuple[int, Any]] = {}
+    for name, body, kind in defs:
+        if kind == "a":
+            nat[name] = (body if isinstance(body, int) else nat[body][0], None)
+        elif isinstance(body, str):
             nat[name] = nat[body]
         else:
             a = max([(what if k == "n" else nat[what][0]) for k, what, _l in body] or [1])
             nat[name] = (a, body)
     return nat
+
+
+def _alias_target(defs, name: str):
+    """what an alias name finally stands for: a native width (int) or the name of a struct / message"""
+    by = {n: (b, k) for n, b, k in defs}
+    while name in by and by[name][1] == "a":
+        name = by[name][0]
+        if isinstance(name, int):
+            return name
+    return name
 
 
 def _poison(defs):
@@ -296,30 +380,32 @@ def _poison(defs):
     swap = {1: 8, 2: 4, 4: 8, 8: 4}
     out = []
     for name, body, kind in defs:
-        if isinstance(body, str):
+        if kind == "a":
+            out.append((name, swap[body] if isinstance(body, int) else body, kind))
+        elif isinstance(body, str):
             out.append((name, body, kind))
         else:
             out.append((name, [(k, (swap[w] if k == "n" else w), l) for k, w, l in body], kind))
     return out
 
 
+_DUP = "  ZZ_DUP_A:\n    id: 4000\n    fields: null\n  ZZ_DUP_B:\n    id: 4000\n    fields: null\n"
+
+
 def _parse_group(auto_pad: bool, defs, d: str, reuse: bool = False):
     P, p = _parser(auto_pad)
     if reuse:
-        bad = os.path.join(d, "poison.yaml")
-        open(bad, "w").write(_yaml_of(_poison(defs)) + "  ZZ_DUP_A:\n    id: 4000\n    fields: null\n  ZZ_DUP_B:\n    id: 4000\n    fields: null\n"
-                             if any(k == "m" for _n, _b, k in defs) else
-                             _yaml_of(_poison(defs)) + "message_defs:\n  ZZ_DUP_A:\n    id: 4000\n    fields: null\n  ZZ_DUP_B:\n    id: 4000\n    fields: null\n")
+        bad = _write_group(d, _poison(defs), "poison", tail=_DUP)
         try:
-            p.parse(bad)
+            with C.time_limit(LIMIT_S):
+                p.parse(bad)
         except BaseException as e:  # noqa: BLE001  the failure is intended
             if isinstance(e, (KeyboardInterrupt, SystemExit)):
                 raise
-    path = os.path.join(d, "g.yaml")
-    # struct_defs are parsed before message_defs: order the prefix the same way
-    open(path, "w").write(_yaml_of(defs))
+    path = _write_group(d, defs, "g")
     try:
-        p.parse(path)
+        with C.time_limit(LIMIT_S):
+            p.parse(path)
     except BaseException as e:  # noqa: BLE001
         if isinstance(e, (KeyboardInterrupt, SystemExit)):
             raise
@@ -328,9 +414,12 @@ def _parse_group(auto_pad: bool, defs, d: str, reuse: bool = False):
 
 
 def run_yaml_group(gid: str, auto_pad: bool, defs, reuse: bool = False) -> List[Tuple[str, List[str]]]:
-    """Returns [(case id, protocol lines)] — one case per definition up to and including the first rejected one."""
-    # the parser handles every struct_def of a file before any message_def
-    defs = [x for x in defs if x[2] == "s"] + [x for x in defs if x[2] == "m"]
+    """Returns [(case id, protocol lines)] — one case per struct / message definition up to and including the first
+    rejected one (aliases are not cases: they are members of the cases)."""
+    if C.hangs_seen() >= MAX_HANGS:
+        return []
+    # the order in which the parser meets the definitions: file by file, aliases, struct_defs, message_defs
+    defs = _parse_order(defs)
     nat = _natural(defs)
     d = tempfile.mkdtemp(prefix="pyrtma_verif_lay_")
     old = os.getcwd()
@@ -348,6 +437,8 @@ def run_yaml_group(gid: str, auto_pad: bool, defs, reuse: bool = False) -> List[
                 p, n_ok = pk, k
         cases = []
         for j, (name, body, kind) in enumerate(defs[: n_ok + (1 if n_ok < len(defs) else 0)]):
+            if kind == "a":
+                continue
             members = nat[name][1]
             toks = []
             for k, what, length in members:
@@ -355,11 +446,15 @@ def run_yaml_group(gid: str, auto_pad: bool, defs, reuse: bool = False) -> List[
                     a = e = what
                 else:
                     a = nat[what][0]
-                    tgt = (p.struct_defs.get(what) or p.message_defs.get(what)) if p is not None else None
-                    if tgt is None:
-                        toks = None
-                        break
-                    e = tgt.size
+                    real = _alias_target(defs, what)
+                    if isinstance(real, int):
+                        e = real
+                    else:
+                        tgt = (p.struct_defs.get(real) or p.message_defs.get(real)) if p is not None else None
+                        if tgt is None:
+                            toks = None
+                            break
+                        e = tgt.size
                 toks.append(f"{a}:{e}:{-1 if length is None else length}:0")
             if toks is None:
                 continue
@@ -394,7 +489,8 @@ def run_yaml_group(gid: str, auto_pad: bool, defs, reuse: bool = False) -> List[
 
 
 def yaml_directed():
-    """field-list reuse x nesting: a small-alignment definition, a reuse of it, and the reuse used as a member"""
+    """field-list reuse x nesting: a small-alignment definition, a reuse of it, and the reuse used as a member;
+    aliases (of a native type, of an alias, of a struct) as members and array elements"""
     G = []
     for w in (1, 2, 4, 8):
         for pre in (1, 2, 4, 8):
@@ -410,18 +506,30 @@ def yaml_directed():
     G.append([("A", [("n", 2, 3)], "s"), ("B", "A", "s"), ("C", [("n", 2, None), ("r", "B", None)], "s"),
               ("M", "C", "m"), ("N", [("n", 1, 2), ("r", "M", 2)], "m")])
     G.append([("A", [("n", 1, 5)], "s"), ("B", "A", "m"), ("C", [("n", 1, None), ("r", "A", 3), ("n", 8, None)], "m")])
+    # aliases: of each native width, of an alias, of a struct whose size is no power of two (its alignment is that of its
+    # members, not its size), each as a scalar member and as an array element behind a leading field of every width
+    for w in (1, 2, 4, 8):
+        for pre in (1, 2, 4, 8):
+            G.append([("S", [("n", w, 3)], "s"), ("AN", w, "a"), ("AA", "AN", "a"), ("AS", "S", "a"), ("AAS", "AS", "a"),
+                      ("T", [("n", pre, None), ("r", "AN", None), ("n", 1, None), ("r", "AA", 3)], "s"),
+                      ("U", [("n", pre, None), ("r", "AS", None), ("n", 1, None), ("r", "AAS", 2)], "s"),
+                      ("V", [("r", "AS", None), ("n", pre, None)], "m"),
+                      ("W", [("n", 1, None), ("r", "U", 2), ("r", "AN", None)], "m"),
+                      ("X", "U", "m")])
     return G
 
 
 def yaml_random(rng):
     names, defs = [], []
     n = rng.randint(2, 6)
+    with_alias = rng.random() < 0.5
     for i in range(n):
         name = f"T{i}"
         kind = "s" if (i < n - 1 and rng.random() < 0.8) else rng.choice(["s", "m"])
-        usable = [x[0] for x in defs if x[2] == "s" or kind == "m"]
-        if usable and rng.random() < 0.3:
-            body: Any = rng.choice(usable)
+        usable = [x[0] for x in defs if x[2] in ("s", "a") or kind == "m"]
+        reusable = [x[0] for x in defs if x[2] == "s" or (kind == "m" and x[2] == "m")]
+        if reusable and rng.random() < 0.3:
+            body: Any = rng.choice(reusable)
         else:
             body = []
             wmax = rng.choice([1, 2, 4, 8, 8])
@@ -432,4 +540,8 @@ def yaml_random(rng):
                 else:
                     body.append(("n", rng.choice([w for w in (1, 2, 4, 8) if w <= wmax]), length))
         defs.append((name, body, kind))
+        if with_alias and rng.random() < 0.5:
+            # an alias of a native width, of an earlier alias, or of an earlier struct
+            tg = [x[0] for x in defs if x[2] in ("s", "a")]
+            defs.append((f"A{i}", rng.choice(tg) if (tg and rng.random() < 0.6) else rng.choice([1, 2, 4, 8]), "a"))
     return defs
